@@ -108,6 +108,8 @@ def blocks(tier):
     blocks.append(Block("v2.all_base_x_e_spellings", "2",
                         spaces.v2_base_all() if thorough else spaces.v2_base_all()[::9],
                         spaces.ABSENT, esp2))
+    blocks.append(Block("v2.all_base_x_env_partial", "2", spaces.v2_base_all(), tsp2[::60],
+                        spaces.v2_env_partial()))
     tsp3 = parts(T.V3_TEMPORAL, dict((m, [None] + T.V3[m]) for m in T.V3_TEMPORAL))
     fam, twin = "3.0", "3.1"
     blocks.append(Block("v3.all_base_x_t_spellings", fam, spaces.v3_base_all(), tsp3, twin=twin))
